@@ -104,7 +104,7 @@ func levels(r *vrt.R, threshold int) []int {
 }
 
 func enumerate(r *vrt.R, emit func(*caseSpec) bool) {
-	if !enumSmall(r, emit) || !enumLarge(r, emit) || !enumSwitch(r, emit) || !enumPacketLayer(r, emit) {
+	if !enumSmall(r, emit) || !enumLarge(r, emit) || !enumSwitch(r, emit) || !enumPacketLayer(r, emit) || !enumBuffers(r, emit) {
 		return
 	}
 }
@@ -136,11 +136,18 @@ func enumSmall(r *vrt.R, emit func(*caseSpec) bool) bool {
 		}
 		rec(nil)
 		for _, dir := range dirs {
-			for _, lvl := range levels(r, t) {
+			lvls := levels(r, t)
+			if !r.Thorough() && t >= 0 {
+				lvls = []int{-1, 0, 6, 1, 9} // 1 and 9 (the ends of the range): single payloads only, see below
+			}
+			for _, lvl := range lvls {
 				for _, mode := range []struct{ sec, via string }{{"", ""}, {secret1, ""}, {secret2, ""}, {"", "packet"}, {secret1, "packet"}} {
 					for _, seq := range seqs {
 						if mode.via == "packet" && hasZero(seq) {
 							continue // a packet always has its id byte
+						}
+						if !r.Thorough() && (lvl == 1 || lvl == 9) && len(seq) > 1 {
+							continue
 						}
 						for _, kind := range []string{"rep", "lcg"} {
 							cs := &caseSpec{Dir: dir, Threshold: t, Level: lvl, Secret: mode.sec, Via: mode.via}
@@ -304,6 +311,41 @@ func enumPacketLayer(r *vrt.R, emit func(*caseSpec) bool) bool {
 										return false
 									}
 								}
+							}
+						}
+					}
+				}
+			}
+		}
+	}
+	return true
+}
+
+// the 4096-byte buffers between the codec and the connection (bufio.Writer under the encoder, bufio.Reader under
+// the decoder): payload sizes that make a frame end just below / exactly at / just above the buffer size (with
+// the 2-byte length prefix, +1 data-length byte under compression), alone, before and after a small payload and
+// twice in a row; flushed after every payload or only once at the end, so that the write buffer overflows in the
+// middle of a frame while earlier frames are still in it. Plain and encrypted, compression off / threshold above
+// and below the size.
+func enumBuffers(r *vrt.R, emit func(*caseSpec) bool) bool {
+	n := 0
+	for _, s := range []int{4090, 4091, 4092, 4093, 4094, 4095, 4096, 4097, 4098, 8190, 8192} {
+		for _, seq := range [][]int{{s}, {s, 3}, {3, s}, {s, s}, {3000, 200, s}} {
+			for _, t := range []int{-1, 256, 1 << 20} {
+				for _, sec := range []string{"", secret1} {
+					for _, fl := range []bool{false, true} {
+						for _, kind := range []string{"rep", "lcg"} {
+							if t == 256 && kind == "rep" && len(seq) > 2 {
+								continue // compresses to a few bytes: nothing near the buffer size
+							}
+							n++
+							cs := &caseSpec{Dir: []string{"serverbound", "clientbound"}[n%2], Threshold: t, Level: -1, Secret: sec, FlushAtEnd: fl,
+								Via: []string{"", "packet"}[(n/2)%2]}
+							for _, sz := range seq {
+								cs.Steps = append(cs.Steps, step{Size: sz, Content: kind})
+							}
+							if !emit(cs) {
+								return false
 							}
 						}
 					}
